@@ -7,7 +7,8 @@
    forward._actuator_force (the translator rejects both); bin/props/C27.py runs them against the
    real kernels on every check.  is_derive is Coquelicot's derivative over R.
 
-   NOT proved (differential oracle only): RNE passes, fluid and tendon-damping kernels, float32. *)
+   NOT proved (differential oracle only): RNE passes, fluid and tendon-damping kernels, float32,
+   DC-motor branches of the actuator kernels. *)
 From Coq Require Import ZArith Reals List Bool String.
 Set Warnings "-ambiguous-paths".
 From Coquelicot Require Import Coquelicot.
@@ -122,75 +123,92 @@ Theorem C27_qderiv_actuator_passive_write :
 Proof. exact qderiv_actuator_passive_write. Qed.
 Print Assumptions C27_qderiv_actuator_passive_write.
 
-(* affine gain / bias: the value _qderiv_actuator_passive_vel stores (Kval, evaluated on the force
-   the force kernel produced) is d force / d actuator-velocity, where F is the force
-   _actuator_force stores as a function of the velocity -- for fixed/affine/user gain and
-   none/affine/user bias, any non-muscle non-DC dynamics incl. actearly, force not clamped. *)
-Theorem C27_actuator_vel_deriv_affine :
+(* muscle gain: muscle_gain_vel is d muscle_gain / d velocity away from the three breakpoints
+   V = -1, 0, fvmax - 1 of the force-velocity curve (V = vel / max(MINVAL, L0*vmax)).
+   _partial: the curve is C1 at the breakpoints only when fvmax - 1 >= MINVAL; not proved there. *)
+Theorem C27_muscle_gain_vel_correct_partial :
+  forall (len v0 : R) (lr : list R) (acc0 : R) (prm : list R),
+    mus_V v0 lr prm <> -1 -> mus_V v0 lr prm <> 0 -> mus_V v0 lr prm <> vget prm 8 - 1 ->
+    is_derive (fun v => U.muscle_gain len v lr acc0 prm) v0 (U.muscle_gain_vel len v0 lr acc0 prm).
+Proof. exact muscle_gain_vel_correct_partial. Qed.
+Print Assumptions C27_muscle_gain_vel_correct_partial.
+
+Example C27_muscle_regular_example :
+  let prm := [0; 1; 1; 1; 1/2; 3/2; 1; 1; 2] in
+  mus_V (1/2) [0; 1] prm = 1/2 /\
+  is_derive (fun v => U.muscle_gain (1/2) v [0; 1] 1 prm) (1/2) (U.muscle_gain_vel (1/2) (1/2) [0; 1] 1 prm).
+Proof. exact muscle_regular_example. Qed.
+
+(* the actuator kernel after the repairs 62f359e / ccf2e7d: the value _qderiv_actuator_passive_vel stores
+   (Kval, evaluated on the velocity and the force the force kernel produced) is d force / d actuator-
+   velocity, where F is the force _actuator_force stores as a function of the velocity.  It is taken at
+   the control CLAMPED to ctrlrange (both kernels clamp; no hypothesis on ctrl any more) and includes the
+   muscle gain's velocity dependence (muscle_regular: away from the FV breakpoints).  Covers
+   fixed/affine/muscle/user gain, none/affine/muscle/user bias, every dynamics type except DC motor,
+   actearly, force not clamped by forcerange. *)
+Theorem C27_actuator_vel_deriv :
   forall (na : Z) (h : R) (dyntype gaintype biastype actadr actnum : Z)
          (dynprm gainprm biasprm : list R) (actlimited : bool) (actrange : list R)
-         (actearly forcelimited : bool) (forcerange : list R) (ctrllimited : bool)
-         (ctrlrange act_in : list R) (ctrl len : R) (dsbl : Z) (act_dot_in : list R),
-    gaintype <> 2%Z /\ gaintype <> 3%Z ->
-    biastype <> 2%Z /\ biastype <> 3%Z ->
+         (actearly forcelimited : bool) (forcerange : list R) (ctrllimited : bool) (ctrlrange : list R)
+         (acc0 : R) (lengthrange act_in : list R) (ctrl len : R) (dsbl : Z) (act_dot_in : list R),
+    dyntype <> 5%Z -> gaintype <> 3%Z -> biastype <> 3%Z ->
     forall v0 : R,
       (dyntype = 0%Z /\ (negb (na =? 0)%Z && (actadr >=? 0)%Z)%bool = false \/
        dyntype <> 0%Z /\ (negb (na =? 0)%Z && (actadr >=? 0)%Z)%bool = true) ->
-      (ctrllimited = false \/ dsbl <> 0%Z \/ vget ctrlrange 0 <= ctrl <= vget ctrlrange 1) ->
       (dyntype <> 0%Z ->
        vget act_dot_in (actadr + actnum - 1) =
        Adot na h dyntype gaintype biastype actadr actnum dynprm gainprm biasprm actlimited actrange actearly
-         forcelimited forcerange ctrllimited ctrlrange act_in ctrl len dsbl v0) ->
+         forcelimited forcerange ctrllimited ctrlrange acc0 lengthrange act_in ctrl len dsbl v0) ->
+      muscle_regular gaintype gainprm lengthrange v0 ->
       (forcelimited = false \/
        vget forcerange 0 <
          F na h dyntype gaintype biastype actadr actnum dynprm gainprm biasprm actlimited actrange actearly
-           forcelimited forcerange ctrllimited ctrlrange act_in ctrl len dsbl v0 < vget forcerange 1) ->
+           forcelimited forcerange ctrllimited ctrlrange acc0 lengthrange act_in ctrl len dsbl v0 < vget forcerange 1) ->
       is_derive
         (F na h dyntype gaintype biastype actadr actnum dynprm gainprm biasprm actlimited actrange actearly
-           forcelimited forcerange ctrllimited ctrlrange act_in ctrl len dsbl) v0
+           forcelimited forcerange ctrllimited ctrlrange acc0 lengthrange act_in ctrl len dsbl) v0
         (Kval h dyntype gaintype biastype actadr actnum dynprm gainprm biasprm actlimited actrange actearly
-           forcelimited forcerange act_in ctrl act_dot_in
+           forcelimited forcerange ctrllimited ctrlrange acc0 lengthrange act_in ctrl len dsbl act_dot_in v0
            (F na h dyntype gaintype biastype actadr actnum dynprm gainprm biasprm actlimited actrange actearly
-              forcelimited forcerange ctrllimited ctrlrange act_in ctrl len dsbl v0)).
-Proof. exact actuator_vel_deriv_affine. Qed.
-Print Assumptions C27_actuator_vel_deriv_affine.
+              forcelimited forcerange ctrllimited ctrlrange acc0 lengthrange act_in ctrl len dsbl v0)).
+Proof. exact actuator_vel_deriv_nodc. Qed.
+Print Assumptions C27_actuator_vel_deriv.
 
 (* force clamped by forcerange (strictly outside): locally constant force, the kernel stores 0 *)
 Theorem C27_actuator_vel_deriv_forceclamped :
   forall (na : Z) (h : R) (dyntype gaintype biastype actadr actnum : Z)
          (dynprm gainprm biasprm : list R) (actlimited : bool) (actrange : list R)
-         (actearly forcelimited : bool) (forcerange : list R) (ctrllimited : bool)
-         (ctrlrange act_in : list R) (ctrl len : R) (dsbl : Z) (act_dot_in : list R),
-    gaintype <> 2%Z /\ gaintype <> 3%Z ->
-    biastype <> 2%Z /\ biastype <> 3%Z ->
+         (actearly forcelimited : bool) (forcerange : list R) (ctrllimited : bool) (ctrlrange : list R)
+         (acc0 : R) (lengthrange act_in : list R) (ctrl len : R) (dsbl : Z) (act_dot_in : list R),
+    dyntype <> 5%Z -> gaintype <> 3%Z -> biastype <> 3%Z ->
     forall v0 : R,
+      muscle_regular gaintype gainprm lengthrange v0 ->
       forcelimited = true -> vget forcerange 0 <= vget forcerange 1 ->
       (Funclamped na h dyntype gaintype biastype actadr actnum dynprm gainprm biasprm actlimited actrange actearly
-         forcerange ctrllimited ctrlrange act_in ctrl len dsbl v0 < vget forcerange 0 \/
+         forcerange ctrllimited ctrlrange acc0 lengthrange act_in ctrl len dsbl v0 < vget forcerange 0 \/
        vget forcerange 1 <
        Funclamped na h dyntype gaintype biastype actadr actnum dynprm gainprm biasprm actlimited actrange actearly
-         forcerange ctrllimited ctrlrange act_in ctrl len dsbl v0) ->
+         forcerange ctrllimited ctrlrange acc0 lengthrange act_in ctrl len dsbl v0) ->
       is_derive
         (F na h dyntype gaintype biastype actadr actnum dynprm gainprm biasprm actlimited actrange actearly
-           forcelimited forcerange ctrllimited ctrlrange act_in ctrl len dsbl) v0 0 /\
+           forcelimited forcerange ctrllimited ctrlrange acc0 lengthrange act_in ctrl len dsbl) v0 0 /\
       Kval h dyntype gaintype biastype actadr actnum dynprm gainprm biasprm actlimited actrange actearly
-        forcelimited forcerange act_in ctrl act_dot_in
+        forcelimited forcerange ctrllimited ctrlrange acc0 lengthrange act_in ctrl len dsbl act_dot_in v0
         (F na h dyntype gaintype biastype actadr actnum dynprm gainprm biasprm actlimited actrange actearly
-           forcelimited forcerange ctrllimited ctrlrange act_in ctrl len dsbl v0) = 0.
-Proof. exact actuator_vel_deriv_forceclamped. Qed.
+           forcelimited forcerange ctrllimited ctrlrange acc0 lengthrange act_in ctrl len dsbl v0) = 0.
+Proof. exact actuator_vel_deriv_forceclamped_nodc. Qed.
 Print Assumptions C27_actuator_vel_deriv_forceclamped.
 
-(* REFUTED without the "ctrl not clamped" hypothesis: the force kernel uses the ctrlrange-clamped
-   ctrl, the derivative kernel the raw ctrl_in.  gain = 1 + 2*velocity, ctrlrange [-1,1], ctrl = 3:
-   d force / d velocity = 2, stored value 6.  Replayed on the real code by bin/props/C27.py
-   (finding C27:_qderiv_actuator_passive_vel:ctrl-not-clamped). *)
-Theorem C27_actuator_vel_deriv_clamped_ctrl_refuted :
-  exists (h : R) (gainprm ctrlrange : list R) (ctrl v0 : R),
-    let Fx := F 0 h 0 1 0 (-1) 0 [] gainprm [] false [] false false [] true ctrlrange [] ctrl 0 0 in
-    let K := Kval h 0 1 0 (-1) 0 [] gainprm [] false [] false false [] [] ctrl [] (Fx v0) in
-    is_derive Fx v0 2 /\ K = 6 /\ ~ is_derive Fx v0 K.
-Proof. exact actuator_vel_deriv_clamped_ctrl_refuted. Qed.
-Print Assumptions C27_actuator_vel_deriv_clamped_ctrl_refuted.
+(* regression witness of the repaired defect C27:_qderiv_actuator_passive_vel:ctrl-not-clamped
+   (formerly C27_actuator_vel_deriv_clamped_ctrl_refuted): gain = 1 + 2*velocity, ctrlrange [-1,1],
+   ctrl = 3.  The kernel now stores 2 * clamp(3) = 2 = d force / d velocity (it stored 6).
+   Replayed on the real code by bin/props/C27.py under the same key. *)
+Theorem C27_actuator_vel_deriv_clamped_ctrl_witness :
+  let Fx := F 0 (1/500) 0 1 0 (-1) 0 [] [1; 0; 2] [] false [] false false [] true [-1; 1] 1 [-1; 1] [] 3 0 0 in
+  let K := Kval (1/500) 0 1 0 (-1) 0 [] [1; 0; 2] [] false [] false false [] true [-1; 1] 1 [-1; 1] [] 3 0 0 [] 0 (Fx 0) in
+  K = 2 /\ is_derive Fx 0 K.
+Proof. exact actuator_vel_deriv_clamped_ctrl_witness. Qed.
+Print Assumptions C27_actuator_vel_deriv_clamped_ctrl_witness.
 
 (* deriv_rne_body2jnt_sparse: flg_subtract = false (what implicit() passes) ADDS dt * cdof_i . Dcfrc *)
 Theorem C27_rne_body2jnt_adds :
@@ -202,10 +220,10 @@ Theorem C27_rne_body2jnt_adds :
 Proof. exact rne_body2jnt_adds. Qed.
 Print Assumptions C27_rne_body2jnt_adds.
 
-(* non-vacuity of C27_actuator_vel_deriv_affine *)
+(* non-vacuity of C27_actuator_vel_deriv *)
 Example C27_actuator_vel_deriv_affine_example :
-  let adot := Adot 1 (1/500) 1 1 1 0 1 [] [1; 0; 2] [0; 0; -1] false [] false false [] true [-1; 1] [1/2] (1/2) 0 0 3 in
-  is_derive (F 1 (1/500) 1 1 1 0 1 [] [1; 0; 2] [0; 0; -1] false [] false false [] true [-1; 1] [1/2] (1/2) 0 0) 3
-    (Kval (1/500) 1 1 1 0 1 [] [1; 0; 2] [0; 0; -1] false [] false false [] [1/2] (1/2) [adot]
-       (F 1 (1/500) 1 1 1 0 1 [] [1; 0; 2] [0; 0; -1] false [] false false [] true [-1; 1] [1/2] (1/2) 0 0 3)).
+  let adot := Adot 1 (1/500) 1 1 1 0 1 [] [1; 0; 2] [0; 0; -1] false [] false false [] true [-1; 1] 1 [-1; 1] [1/2] (1/2) 0 0 3 in
+  is_derive (F 1 (1/500) 1 1 1 0 1 [] [1; 0; 2] [0; 0; -1] false [] false false [] true [-1; 1] 1 [-1; 1] [1/2] (1/2) 0 0) 3
+    (Kval (1/500) 1 1 1 0 1 [] [1; 0; 2] [0; 0; -1] false [] false false [] true [-1; 1] 1 [-1; 1] [1/2] (1/2) 0 0 [adot] 3
+       (F 1 (1/500) 1 1 1 0 1 [] [1; 0; 2] [0; 0; -1] false [] false false [] true [-1; 1] 1 [-1; 1] [1/2] (1/2) 0 0 3)).
 Proof. exact actuator_vel_deriv_affine_example. Qed.
